@@ -53,6 +53,8 @@ type Options struct {
 	// Entry: the public entry point the set is compiled through. "" = CompileParseTrees on trees
 	// parsed with parse.Parse; see EntryPoints.
 	Entry string
+	// SkipUnknown: compile in the mode that tolerates references to modules that are not in the set
+	SkipUnknown bool
 	Filter          compile.SchemaFilter
 	MapOrder        []int // prefix of map-order choices (nil = Go's native order, chooser off); use []int{} for canonical order
 	Horizon         int64
@@ -143,7 +145,7 @@ func Compile(mods map[string]string, o Options) (res Result) {
 			fc = compile.MultiFeatureCheckers(compile.FeaturesFromNames(true, o.Features...), compile.FeaturesFromNames(false, o.FeatureUniverse...), compile.FeaturesFromNames(true, o.Features...))
 		}
 	}
-	ms, err := compile.CompileParseTrees(nil, trees, fc, false, o.Filter)
+	ms, err := compile.CompileParseTrees(nil, trees, fc, o.SkipUnknown, o.Filter)
 	if err != nil {
 		res.Err, res.Stage = err, "compile"
 		return
